@@ -28,6 +28,19 @@ integrals against the area under its own __call__ and under that reference).
 State carried between objects (module-level memo, mutable default argument,
 id() reuse, class attribute) shows up only there; the case holds the whole
 sequence, so its replay starts from a fresh process and rebuilds the history.
+Routes and types (case fields `via`, `texts`, `flow`): a function is made through
+the class or through create_specific_yield_function on floats ('class' /
+'factory'), and - the 'typed' sets of GS.gen_typed_knots - from what
+yaml.safe_load gives for a parameter text whose whole numbers are written without
+a dot (Python ints next to floats; zeros as 0, 0.0, -0.0), through the factory
+('yaml': the parsed text itself; 'factory-typed': a dictionary of those numbers)
+or the class ('class-typed').  Every set goes through the same oracle, contract
+tests and Coq models (the case holds the floats meant).  Arguments: levels and
+limits are also handed over as Python ints, numpy integers and floats, 0-d
+arrays, lists, integer arrays, 2-d arrays, -0.0 for 0.0: the answer must be the
+one for the plain float.  The caller's arrays (H.call_twice: owned, read-only,
+strided, reversed; 0-d limits of integrate) must come back bit-for-bit
+unchanged and a second call with the same object must give the same answer.
 """
 import math
 from fractions import Fraction
@@ -35,6 +48,7 @@ from fractions import Fraction
 import numpy as np
 
 from harness import common as C
+from harness import gen_hydraulic as H
 from harness import gen_spline as GS
 
 PROP = 'C14'
@@ -67,12 +81,42 @@ def area(f, breaks, a, b):
 
 # ------------------------------------------------------------- implementation
 
+VIAS = ('class', 'factory', 'yaml', 'factory-typed', 'class-typed')
+
+
 def build(ks, via_factory=False):
+    """The function of the knot set, made the way ks['via'] says (default: class / factory on floats).  The
+    caller's parameter lists must come back as they were handed over (OracleViolation otherwise)."""
+    import yaml
     import spowtd.specific_yield as sy
-    if via_factory:
-        return sy.create_specific_yield_function(
-            dict(type='spline', zeta_knots_mm=list(ks['knots']), sy_knots=list(ks['values'])))
-    return sy.SplineSpecificYield(list(ks['knots']), list(ks['values']))
+    via = ks.get('via') or ('factory' if via_factory else 'class')
+    if via in ('yaml', 'factory-typed', 'class-typed'):
+        if via == 'yaml':
+            params = yaml.safe_load(GS.parameter_text(ks['texts'], ks.get('flow', False)))['specific_yield']
+            zk, sy_ = params['zeta_knots_mm'], params['sy_knots']
+        else:
+            zk, sy_ = GS.typed_numbers(ks['texts']['zk']), GS.typed_numbers(ks['texts']['sy'])
+            params = dict(type='spline', zeta_knots_mm=zk, sy_knots=sy_)
+        if [float(x) for x in zk] != ks['knots'] or [float(y) for y in sy_] != ks['values']:
+            raise AssertionError('harness: parameter text %r does not mean knots %r values %r'
+                                 % (ks['texts'], ks['knots'], ks['values']))
+    else:
+        zk, sy_ = list(ks['knots']), list(ks['values'])
+        params = dict(type='spline', zeta_knots_mm=zk, sy_knots=sy_)
+    before = (repr(zk), repr(sy_))
+    obj = sy.SplineSpecificYield(zk, sy_) if via.startswith('class') else sy.create_specific_yield_function(params)
+    if (repr(zk), repr(sy_)) != before:
+        raise ParametersModified('the caller\'s parameter lists were modified while the function was made (%s): '
+                                 'handed over %s / %s, afterwards %r / %r' % (via, before[0], before[1], zk, sy_))
+    return obj
+
+
+class ParametersModified(Exception):
+    pass
+
+
+def via_fields(ks):
+    return {f: ks[f] for f in ('via', 'texts', 'flow') if f in ks}
 
 
 def tck_of(obj):
@@ -82,6 +126,156 @@ def tck_of(obj):
 def fl(x):
     """float of a numpy scalar / 0-d array / float"""
     return float(np.asarray(x).reshape(()))
+
+
+# ------------------------------------------------------------- the caller's arrays, the forms of an argument
+
+def same_floats(a, b):
+    """Equal as lists of binary64 numbers (an exact comparison: nan equals nan, 0.0 equals -0.0)."""
+    a, b = np.asarray(a, dtype=float).reshape(-1), np.asarray(b, dtype=float).reshape(-1)
+    return a.shape == b.shape and bool(np.all((a == b) | (np.isnan(a) & np.isnan(b))))
+
+
+def call_array(obj, xs, out, case, who='', report=True, modes=H.ARRAY_MODES):
+    """obj(array of the levels xs) as a caller that keeps its array does: one array per way of holding the memory
+    (H.ARRAY_MODES), handed over twice.  Oracle: the caller's levels come back bit-for-bit unchanged, no call is
+    refused, the second answer is the first, every way of holding the array gives the same answer, one value per
+    level.  Returns the first answer for the owned array as a list of floats (nan where there is none)."""
+    first = None
+    for mode in modes:
+        results, modified = H.call_twice(obj, xs, mode)
+        if report:
+            out.evaluations += len(results)
+            out.count('array-call:%s' % mode, len(results))
+        bad = None
+        if modified:
+            bad = 'the caller\'s levels were modified by the call'
+        elif any(r[0] == 'err' for r in results):
+            bad = 'the call was refused (%s)' % ', '.join(str(r[1]) for r in results)
+        elif any(r[1].shape != (len(xs),) for r in results):
+            bad = 'the answer has shape %r for %d levels' % (results[0][1].shape, len(xs))
+        elif not same_floats(results[0][1], results[1][1]):
+            bad = ('the second call with the same array gives %r, the first gave %r'
+                   % (results[1][1].tolist(), results[0][1].tolist()))
+        elif first is not None and not same_floats(results[0][1], first):
+            bad = 'the answer %r differs from the one for an owned array, %r' % (results[0][1].tolist(), first.tolist())
+        if bad and report:
+            out.violation('oracle', 'specific yield of a %s array of levels %r%s: %s'
+                          % (mode, [float(x) for x in xs], who, bad), case=case)
+        if first is None:
+            first = results[0][1] if results[0][0] == 'ok' and results[0][1].shape == (len(xs),) \
+                else np.full(len(xs), np.nan)
+    return [float(v) for v in first]
+
+
+def scalar_forms(x):
+    """(name, object) for the ways a caller may hand over the level x."""
+    x = float(x)
+    forms = [('np.float64', np.float64(x)), ('0-d float array', np.array(x))]
+    if x.is_integer() and abs(x) < 2 ** 31:
+        if not (x == 0 and math.copysign(1.0, x) < 0):
+            forms += [('int', int(x)), ('np.int64', np.int64(int(x))), ('np.int32', np.int32(int(x))),
+                      ('0-d int array', np.array(int(x)))]
+    if x == 0:
+        forms += [('-0.0', -0.0), ('0.0', 0.0), ('int 0', 0)]
+    return forms
+
+
+def twice(f, args):
+    """f(*args) two times with the same objects; ndarray arguments must come back bit-for-bit unchanged.
+    Returns (answers or None, complaint or None)."""
+    import warnings
+    keep = [(a, a.tobytes(), a.dtype, a.shape) for a in args if isinstance(a, np.ndarray)]
+    keep += [(a, repr(a), None, None) for a in args if isinstance(a, list)]
+    res = []
+    for _ in range(2):
+        try:
+            with warnings.catch_warnings():
+                warnings.simplefilter('ignore')
+                res.append(np.array(f(*args), dtype=float, copy=True))
+        except Exception as e:  # pylint: disable=broad-except
+            return None, 'refused: %s: %s' % (type(e).__name__, e)
+    for a, was, dt, sh in keep:
+        now = repr(a) if dt is None else a.tobytes()
+        if now != was or (dt is not None and (a.dtype != dt or a.shape != sh)):
+            return res, 'the caller\'s argument was modified by the call'
+    if not same_floats(res[0], res[1]):
+        return res, 'the second call with the same objects gives %r, the first gave %r' % (res[1].tolist(), res[0].tolist())
+    return res, None
+
+
+def forms_oracle(ks, obj, pairs, out, case, max_pairs):
+    """Levels and limits handed over as ints, numpy scalars, 0-d arrays, lists, integer arrays, 2-d arrays, -0.0:
+    the answer is the one for the plain float (which the oracle judges); the caller's objects are not modified;
+    the same objects handed over again give the same answer."""
+    knots, values = ks['knots'], ks['values']
+    tail = ' (knots %r values %r)' % (knots, values)
+    levels = []
+    for p in pairs:
+        for x in p[2:4]:
+            if not any(x == y and math.copysign(1.0, x) == math.copysign(1.0, y) for y in levels):
+                levels.append(x)
+    base = [fl(obj(float(x))) for x in levels]
+    for x, want in zip(levels, base):
+        for name, v in scalar_forms(x):
+            res, bad = twice(obj, [v])
+            out.evaluations += 2
+            out.count('call-form:%s' % name)
+            if bad is None and not (res[0].size == 1 and same_floats(res[0], [want])):
+                bad = 'gives %r' % res[0].tolist()
+            if bad:
+                out.violation('oracle', 'specific yield at level %r handed over as %s %r: %s; for the float %r the '
+                              'answer is %r%s' % (x, name, v, bad, float(x), want, tail), case=case)
+    # many levels at once
+    arrs = [('list of floats', [float(x) for x in levels]),
+            ('2-d float array', np.array([levels, levels[::-1]], dtype=float))]
+    whole = [(x, w) for x, w in zip(levels, base) if float(x).is_integer() and abs(x) < 2 ** 31]
+    want_of = {'list of floats': base, '2-d float array': base + base[::-1]}
+    if whole:
+        ints = [int(x) for x, _ in whole]
+        for name, v in (('list of ints', list(ints)), ('int64 array', np.array(ints, dtype='int64')),
+                        ('int32 array', np.array(ints, dtype='int32')), ('tuple of ints', tuple(ints)),
+                        ('read-only int64 array', np.array(ints, dtype='int64'))):
+            arrs.append((name, v))
+            want_of[name] = [w for _, w in whole]
+        arrs[-1][1].setflags(write=False)
+        mixed = [int(x) if i % 2 == 0 else float(x) for i, (x, _) in enumerate(whole)]
+        arrs.append(('list of ints and floats', mixed))
+        want_of['list of ints and floats'] = [w for _, w in whole]
+    for name, v in arrs:
+        res, bad = twice(obj, [v])
+        out.evaluations += 2
+        out.count('call-form:%s' % name)
+        if bad is None and not (res[0].shape == np.shape(v) and same_floats(res[0], want_of[name])):
+            bad = 'gives %r (shape %r)' % (res[0].tolist(), res[0].shape)
+        if bad:
+            out.violation('oracle', 'specific yield at levels handed over as %s %r: %s; for the floats one by one '
+                          'the answers are %r%s' % (name, v, bad, want_of[name], tail), case=case)
+    # limits of integrate
+    sub = pairs if len(pairs) <= max_pairs else pairs[::max(1, len(pairs) // max_pairs)][:max_pairs]
+    for n, (_, _, a, b) in enumerate(sub):
+        want = fl(obj.integrate(float(a), float(b)))
+        fa, fb = scalar_forms(a), scalar_forms(b)
+        combos = [(fa[i % len(fa)], fb[(i + n) % len(fb)]) for i in range(max(len(fa), len(fb)))]
+        combos.append((('float', float(a)), fb[n % len(fb)]))
+        combos.append((fa[n % len(fa)], ('float', float(b))))
+        # anything array-like, if accepted
+        combos.append((('1-element float array', np.array([float(a)])), ('1-element float array', np.array([float(b)]))))
+        combos.append((('1-element list', [float(a)]), ('1-element list', [float(b)])))
+        for (na, va), (nb, vb) in combos:
+            res, bad = twice(obj.integrate, [va, vb])
+            out.evaluations += 2
+            arrayish = na.startswith('1-element')
+            if arrayish and res is None:
+                out.count('integrate-form:%s:refused' % na)
+                continue
+            out.count('integrate-form:%s' % na)
+            if bad is None and not (res[0].size == 1 and same_floats(res[0], [want])):
+                bad = 'gives %r' % res[0].tolist()
+            if bad:
+                out.violation('oracle', 'integrate(%r, %r) with the limits handed over as %s %r and %s %r: %s; for '
+                              'the floats the answer is %r%s' % (a, b, na, va, nb, vb, bad, want, tail),
+                              case=dict(case, pairs=[[a, b]]))
 
 
 def tables(tck, points):
@@ -157,11 +351,17 @@ def oracle(ks, obj, pairs, rng, out, case, scale):
             out.violation('oracle', 'specific yield at knot %r is %r, the knot value is %r (knots %r values %r)'
                           % (x, got, y, knots, values), case=case)
     # array call = the same values
-    arr = np.array(knots, dtype=float)
-    got = np.asarray(obj(arr), dtype=float)
-    if got.shape != arr.shape or not np.all(np.abs(got - np.array(values)) <= 1e-9 * scale):
+    got = np.array(call_array(obj, knots, out, case, ' (the knots; values %r)' % (values,)))
+    if not np.all(np.abs(got - np.array(values)) <= 1e-9 * scale):
         out.violation('oracle', 'array call at the knots gives %r, knot values are %r' % (got.tolist(), values),
                       case=case)
+    # array call at every level of the set (beyond the knots too) = the scalar calls
+    lv = sorted({p[2] for p in pairs} | {p[3] for p in pairs} | {xmin - 0.5, xmax + 0.5})
+    got = call_array(obj, lv, out, case, ' (knots %r values %r)' % (knots, values))
+    one = [fl(obj(x)) for x in lv]
+    if not same_floats(got, one):
+        out.violation('oracle', 'array call at levels %r gives %r, the calls one by one give %r (knots %r values %r)'
+                      % (lv, got, one, knots, values), case=case)
     # constant outside the knot range
     lo, hi = fl(obj(xmin)), fl(obj(xmax))
     for d in [1e-3, 0.5, 10.0, span, 1e4]:
@@ -214,7 +414,7 @@ def ctriple(a, b, c):
     return '(%s, %s, %s)' % (C.cfloat(a), C.cfloat(b), C.cfloat(c))
 
 
-def wrapper_case(ks, obj, pairs, out, count=True):
+def wrapper_case(ks, obj, pairs, out, count=True, case=None):
     """One case per knot set for the table-driven wrapper model (wrap_case of
     Model/SplineWrapFloat.v): splev / splint of the object's own tck at the
     levels of the set, and what the wrapper returned."""
@@ -235,7 +435,8 @@ def wrapper_case(ks, obj, pairs, out, count=True):
                 out.nontriv(('i', tuple(knots), a, b))
     xs = sorted({p[2] for p in pairs})
     calls = [(x, fl(obj(x))) for x in xs]
-    arr = [float(v) for v in np.asarray(obj(np.array(xs, dtype=float)), dtype=float).reshape(-1)]
+    arr = call_array(obj, xs, out, case, ' (knots %r values %r)' % (knots, ks['values']),
+                     report=case is not None, modes=('owned',))
     if count:
         out.evaluations += len(calls) + 1
         out.count('call-scalar', len(calls))
@@ -306,36 +507,77 @@ def report_bad(kind, bad, metas, out, label):
 
 # ------------------------------------------------------------- malformed
 
-def malformed(rng, out, label):
-    """from_points must refuse knots that are not strictly increasing."""
+def passes_through(ks, obj):
+    """None, or what is wrong with an accepted function at its own (level, value) pairs."""
+    scale = max(max(abs(y) for y in ks['values']), 1e-300)
+    for x, y in zip(ks['knots'], ks['values']):
+        try:
+            got = fl(obj(x))
+        except Exception as e:  # pylint: disable=broad-except
+            return 'the call at level %r fails: %s: %s' % (x, type(e).__name__, e)
+        if not abs(got - y) <= 1e-9 * scale:
+            return 'the specific yield at level %r is %r, the value given for that level is %r' % (x, got, y)
+    return None
+
+
+def malformed_try(ks, out):
+    """'Ok' / the error kind; an accepted function must pass through its own points whatever their order."""
+    try:
+        obj = build(ks)
+    except ParametersModified as e:
+        out.violation('oracle', str(e), case=dict(level='malformed', knots=ks['knots'], values=ks['values'],
+                                                  **via_fields(ks)))
+        return 'Ok'
+    except Exception as e:  # pylint: disable=broad-except
+        return C.err_of(e)
+    if len(set(ks['knots'])) == len(ks['knots']):
+        bad = passes_through(ks, obj)
+        if bad:
+            out.violation('oracle', 'knots %r values %r (made through: %s) were accepted, but %s'
+                          % (ks['knots'], ks['values'], ks.get('via', 'class'), bad),
+                          case=dict(level='malformed', knots=ks['knots'], values=ks['values'], **via_fields(ks)))
+    return 'Ok'
+
+
+def malformed(rng, out, label, rng_routes=None):
+    """from_points must refuse knots that are not strictly increasing, whichever way the function is made."""
     strs, metas = [], []
-    for k in range(12):
-        ks = GS.gen_knots(rng)
+    for k in range(12 + (12 if rng_routes is not None else 0)):
+        if k < 12:
+            ks = GS.gen_knots(rng)
+            r = rng
+        else:       # every kind of disorder through the factory / a parameter text, numbers typed as the text types them
+            r = rng_routes
+            via = ('factory', 'yaml', 'factory-typed', 'class-typed')[((k - 12) // 3) % 4]
+            ks = dict(GS.gen_knots(r) if via == 'factory' else GS.gen_typed_knots(r, r.randrange(7)), via=via)
         xs = list(ks['knots'])
-        i = rng.randrange(1, len(xs))
+        i = r.randrange(1, len(xs))
+        perm = list(range(len(xs)))
         if k % 3 == 0:
             xs[i] = xs[i - 1]
+            perm[i] = i - 1
         elif k % 3 == 1:
             xs[i], xs[i - 1] = xs[i - 1], xs[i]
-        try:
-            build(dict(knots=xs, values=ks['values']))
-            res = 'Ok'
-        except Exception as e:  # pylint: disable=broad-except
-            res = C.err_of(e)
+            perm[i], perm[i - 1] = perm[i - 1], perm[i]
+        ks = dict(ks, knots=xs)
+        if 'texts' in ks:
+            ks['texts'] = dict(zk=[ks['texts']['zk'][j] for j in perm], sy=ks['texts']['sy'])
+        res = malformed_try(ks, out)
         out.evaluations += 1
-        out.count('malformed' if k % 3 != 2 else 'wellformed-guard')
+        out.count(('malformed' if k % 3 != 2 else 'wellformed-guard') + (':' + ks['via'] if k >= 12 else ''))
         strs.append('(%s, %s)' % (C.cQs(xs), 'None' if res == 'Ok' else 'Some %s' % res))
-        metas.append((xs, ks['values'], res))
+        metas.append((xs, ks['values'], res, via_fields(ks)))
     bad, errs, _ = C.run_case_shards(
         PROP, label, PRE, 'list Q * option err',
         'fun c => option_eqb err_eqb (from_points_guard (fst c)) (snd c)', strs)
     out.corr_errors += errs
     for i in bad:
-        xs, ys, res = metas[i]
+        xs, ys, res, via = metas[i]
         inc = all(b > a for a, b in zip(xs, xs[1:]))
         kind = 'oracle' if (inc and res != 'Ok') else 'corr'
-        out.violation(kind, 'Spline.from_points on knots %r: %s, model says otherwise' % (xs, res),
-                      case=dict(level='malformed', knots=xs, values=ys))
+        out.violation(kind, 'Spline.from_points on knots %r%s: %s, model says otherwise'
+                      % (xs, ' (made through: %s)' % via['via'] if via else '', res),
+                      case=dict(level='malformed', knots=xs, values=ys, **via))
 
 
 # ------------------------------------------------------------- history
@@ -367,8 +609,11 @@ def history_member(ks, obj, levels, n, when, prev, out, case):
             out.violation('oracle', '%s: specific yield at level %r is %r, the spline through its own knots '
                           '(constant beyond them) gives %r%s' % (who, x, got, want, prev_s), case=case)
             return False
-    arr = np.asarray(obj(np.array(pts, dtype=float)), dtype=float).reshape(-1)
-    if [float(v) for v in arr] != [fl(obj(x)) for x in pts]:
+    nv = len(out.violations)
+    arr = call_array(obj, pts, out, case, ' - %s%s' % (who, prev_s))
+    if len(out.violations) > nv:
+        return False
+    if not same_floats(arr, [fl(obj(x)) for x in pts]):
         out.violation('oracle', '%s: array call and scalar calls differ at levels %r%s' % (who, pts, prev_s), case=case)
         return False
     # areas between consecutive levels, once: of the object's own __call__ and of the reference
@@ -441,18 +686,36 @@ def check_sets(sets, seed, out, label):
     wrap, exact, metas, emetas = [], [], [], []
     for k, (ks, pairs, with_exact) in enumerate(sets):
         rng = C.rng_for(seed, PROP, 'set', k, tuple(ks['knots']))
+        if 'via' not in ks:
+            ks = dict(ks, via='factory' if k % 2 == 1 else 'class')
+        typed = 'texts' in ks
         case = dict(level='FL', knots=ks['knots'], values=ks['values'], exact=bool(with_exact),
-                    pairs=[[a, b] for _, _, a, b in pairs])
+                    pairs=[[a, b] for _, _, a, b in pairs], **via_fields(ks))
         try:
-            obj = build(ks, via_factory=(k % 2 == 1))
+            obj = build(ks)
+        except ParametersModified as e:
+            out.violation('oracle', str(e), case=case)
+            continue
         except Exception as e:  # pylint: disable=broad-except
-            out.violation('oracle', 'SplineSpecificYield refused strictly increasing knots %r values %r: %s: %s'
-                          % (ks['knots'], ks['values'], type(e).__name__, e), case=case)
+            out.violation('oracle', 'SplineSpecificYield (made through: %s%s) refused strictly increasing knots %r '
+                          'values %r: %s: %s' % (ks['via'], ', numbers written %r' % (ks['texts'],) if typed else '',
+                                                 ks['knots'], ks['values'], type(e).__name__, e), case=case)
             continue
         out.count('knots:%s:n=%d' % (ks.get('kind', '?'), len(ks['knots'])))
+        out.count('made-through:%s' % ks['via'])
+        if typed:
+            for t in ks['texts']['zk'] + ks['texts']['sy']:
+                out.count('yaml-type:%s%s' % (H.yaml_type(t), ':zero' if float(t) == 0 else ''))
+            if 0.0 in ks['knots']:
+                out.count('knot-at-zero:%s' % ('lowest' if ks['knots'][0] == 0 else 'highest' if ks['knots'][-1] == 0
+                                               else 'interior'))
+            first, rest = GS.typed_numbers(ks['texts']['sy'][:1])[0], ks['values'][1:]
+            if isinstance(first, int) and any(not float(y).is_integer() for y in rest):
+                out.count('values:int-first-fractions-after')
         scale = contract_tests(ks, obj, rng, out, case)
         oracle(ks, obj, pairs, rng, out, case, scale)
-        wrap.append(wrapper_case(ks, obj, pairs, out))
+        forms_oracle(ks, obj, pairs, out, case, max_pairs=len(pairs) if typed else 6)
+        wrap.append(wrapper_case(ks, obj, pairs, out, case=case))
         metas.append((ks, obj, pairs, case))
         if with_exact:
             # one integral per position pair class is enough here: the branch structure is
@@ -485,15 +748,28 @@ def run(ctx, out):
     shipped = dict(kind='shipped', knots=[-291.7, -183.1, -15.74, 10.65, 38.78, 168.3],
                    values=[0.1358, 0.1671, 0.2541, 0.2907, 0.2892, 0.6857])
     sets.append((shipped, GS.limit_pairs(rng, shipped['knots']), True))
+    # parameter sets as parameter files write them (own random streams: the sets above are what they were)
+    for k in range(42 if tier == 'quick' else 280):
+        rt = C.rng_for(seed, PROP, 'typed', k)
+        ks = GS.gen_typed_knots(rt, k)
+        sets.append((ks, GS.typed_pairs(rt, ks['knots']), ks.pop('exact')))
     check_sets(sets, seed, out, 'fl')
-    malformed(rng, out, 'malformed')
+    malformed(rng, out, 'malformed', C.rng_for(seed, PROP, 'malformed-routes'))
     out.rule = ('SplineSpecificYield objects on seeded knot sets (4-9 strictly increasing knots, spacings '
                 '0.1..300 mm, six kinds incl. values of both signs) x the 36 ordered pairs of positions '
                 '{below, xmin, inside, interior knot, xmax, above}; scalar and array calls. Non-trivial: '
                 'an integral with distinct limits at least one of which lies outside the knot range; '
                 'distinct by (knots, a, b). History: sequences of 3-5 functions per kind of sharing (all knot '
                 'levels / both or one end level / all values / end values; earlier functions discarded or kept '
-                'alive and used again) x all ordered pairs of ~12 common levels.')
+                'alive and used again) x all ordered pairs of ~12 common levels. Added classes (own random '
+                'streams): functions made through create_specific_yield_function / the class from what '
+                'yaml.safe_load gives for a parameter text (block or flow lists; whole numbers written -300, +5, '
+                '5., 5.0, 5.0e+00: Python ints next to floats, an int first and fractions after it; knots and '
+                'values exactly 0 written 0, 0.0, -0.0), same oracle, contract tests and Coq models; disordered '
+                'knots through every route; levels and limits handed over as int, np.int64/int32/float64, 0-d '
+                'arrays, lists, tuples, integer / read-only / 2-d arrays, 1-element arrays (if accepted), -0.0; '
+                'every array of levels handed over twice as owned / read-only / strided / reversed memory and '
+                'compared bit-for-bit with a pristine copy afterwards.')
     out.samples = [dict(knots=s_[0]['knots'], values=s_[0]['values'], pairs=[p[2:] for p in s_[1][:3]])
                    for s_ in sets[:2]]
     out.assumptions += [
@@ -513,16 +789,12 @@ def replay(case, out):
         check_history([case], out)
         return
     if case.get('level') == 'malformed':
-        try:
-            build(dict(knots=case['knots'], values=case['values']))
-            res = 'Ok'
-        except Exception as e:  # pylint: disable=broad-except
-            res = C.err_of(e)
+        res = malformed_try(dict(knots=case['knots'], values=case['values'], **via_fields(case)), out)
         inc = all(b > a for a, b in zip(case['knots'], case['knots'][1:]))
         if inc != (res == 'Ok'):
             out.violation('oracle' if inc else 'corr',
                           'Spline.from_points on knots %r: %s' % (case['knots'], res), case=case)
         return
-    ks = dict(kind='replay', knots=case['knots'], values=case['values'])
+    ks = dict(kind='replay', knots=case['knots'], values=case['values'], **via_fields(case))
     pairs = [('?', '?', float(a), float(b)) for a, b in case['pairs']]
     check_sets([(ks, pairs, case.get('exact', False))], 0, out, 'replay')
